@@ -414,4 +414,50 @@ theorem nonTagPart_tagged (t rest : Str) (ht : t.head? = some '@') (hs : ' ' ∉
 theorem nonTagPart_plain (l : Str) (h : l.head? ≠ some '@') : nonTagPart l = l := by
   unfold nonTagPart; rw [if_neg h]
 
+/-! ### the bytes on the wire -/
+
+theorem toNat_ne_of_ne (c : Char) (n : Nat) (h : c ≠ Char.ofNat n) : c.toNat ≠ n := by
+  intro e
+  apply h
+  rw [← e, Char.ofNat_toNat]
+
+theorem encChar_clean_bytes (c : Char) (hc : cleanChar c = true) :
+    ∀ b ∈ C11.encChar c, b.toNat ≠ 13 ∧ b.toNat ≠ 10 ∧ b.toNat ≠ 0 := by
+  unfold cleanChar at hc
+  simp only [Bool.not_eq_true', Bool.or_eq_false_iff, decide_eq_false_iff_not] at hc
+  obtain ⟨⟨h13, h10⟩, h0⟩ := hc
+  have e13 := toNat_ne_of_ne c 13 h13
+  have e10 := toNat_ne_of_ne c 10 h10
+  have e0 := toNat_ne_of_ne c 0 h0
+  have hr := C11.char_range c
+  unfold C11.encChar
+  simp only
+  intro b hb
+  by_cases h1 : c.toNat < 0x80
+  · simp only [h1, ↓reduceIte, List.mem_singleton] at hb
+    subst hb
+    rw [C11.b8_toNat _ (by omega)]
+    exact ⟨e13, e10, e0⟩
+  · simp only [h1, ↓reduceIte] at hb
+    by_cases h2 : c.toNat < 0x800
+    · simp only [h2, ↓reduceIte, List.mem_cons, List.not_mem_nil, or_false] at hb
+      rcases hb with rfl | rfl
+      · rw [C11.b8_toNat _ (by omega)]; omega
+      · rw [C11.b8_toNat _ (by omega)]; omega
+    · simp only [h2, ↓reduceIte] at hb
+      by_cases h3 : c.toNat < 0x10000
+      · simp only [h3, ↓reduceIte, List.mem_cons, List.not_mem_nil, or_false] at hb
+        rcases hb with rfl | rfl | rfl
+        · rw [C11.b8_toNat _ (by omega)]; omega
+        · rw [C11.b8_toNat _ (by omega)]; omega
+        · rw [C11.b8_toNat _ (by omega)]; omega
+      · simp only [h3, ↓reduceIte, List.mem_cons, List.not_mem_nil, or_false] at hb
+        rcases hb with rfl | rfl | rfl | rfl
+        · rw [C11.b8_toNat _ (by omega)]; omega
+        · rw [C11.b8_toNat _ (by omega)]; omega
+        · rw [C11.b8_toNat _ (by omega)]; omega
+        · rw [C11.b8_toNat _ (by omega)]; omega
+
+theorem utf8_CRLF : C11.utf8 CRLF = [13, 10] := by decide
+
 end C06
